@@ -35,7 +35,7 @@ def floors(tier):
     return {"const_checked": 20000, "enum_checked": 40000, "unique_checked": 40000, "pairs_equal": 5000,
             "pairs_unequal": 5000, "depth0": 500, "depth1": 500, "depth2": 500, "depth3": 500,
             "arrays_all_scalar": 500, "arrays_sortable_containers": 500, "arrays_unsortable": 500,
-            "uniq_regions_hit": 1}
+            "uniq_regions_hit": 1, "container_class_variants": 5000}
 
 
 NFC = unicodedata.normalize("NFC", "é")
@@ -85,11 +85,37 @@ def checks(ctx, c, x, depth, rng, V6=(6, 7), ALL=impl.DRAFTS):
         plan.append(({"uniqueItems": True}, [c, x], not want, "unique"))
         for schema, inst, exp, kind in plan:
             one(ctx, d, cls, schema, inst, exp, kind)
+        if _has_container(c) or _has_container(x):
+            # the same JSON values in other container classes (both sides, e.g. loaded with object_pairs_hook=OrderedDict:
+            # == between two OrderedDicts is order-sensitive; JSON objects are unordered)
+            for ks, ki in CONTAINER_PLANS:
+                ctx.count("container_class_variants")
+                for schema, inst, exp, kind in plan[:2] + plan[-1:]:
+                    one(ctx, d, cls, schema, inst, exp, kind, containers=(ks, ki))
 
 
-def one(ctx, d, cls, schema, inst, exp, kind):
+CONTAINER_PLANS = [("ordered", "ordered-reversed"), ("ordered-reversed", "ordered"), ("defaultdict", None), (None, "defaultdict"),
+                   ("list-subclass", None), ("ordered", "ordered")]
+
+
+def _has_container(v):
+    return isinstance(v, dict) and len(v) >= 1 or isinstance(v, list) and any(_has_container(e) for e in v)
+
+
+def _dress(v, kind):
+    from vf.gen.values import exotic
+    return exotic(v, kind) if kind else v
+
+
+def one(ctx, d, cls, schema, inst, exp, kind, containers=None):
     case = {"draft": d, "schema": schema, "instance": inst}
-    ctx.case([d, schema, inst])
+    if containers:
+        case["containers"] = list(containers)
+        if "uniqueItems" in schema and isinstance(inst, list) and len(inst) == 2:
+            inst = [_dress(inst[0], containers[0]), _dress(inst[1], containers[1])]
+        else:
+            schema, inst = _dress(schema, containers[0]), _dress(inst, containers[1])
+    ctx.case([d, schema, inst, containers])
     ctx.count(kind + "_checked")
     try:
         got = cls(schema).is_valid(inst)
@@ -199,4 +225,4 @@ def replay(ctx, rec):
         exp = any(jeq(e, inst) for e in schema["enum"])
     else:
         exp = all_distinct(inst)
-    one(ctx, d, impl.CLS[d], schema, inst, exp, "replay")
+    one(ctx, d, impl.CLS[d], schema, inst, exp, "replay", containers=c.get("containers"))
